@@ -127,6 +127,9 @@ def vsum(items):
 _ATOMIC = (int, float, str, bool, type(None), SNum, SBool, np.integer, np.floating, complex)
 
 
+_MANGLED = __import__('re').compile(r'_[A-Za-z0-9]+__\w')
+
+
 def snapshot(roots, max_depth=8):
     """walk the object graph below `roots` (dict name -> object); returns {location: record}.
     record = ('val', value) | ('vec', id, copy) | ('obj', id) | ('ref', id) | ('arr', id, copy)"""
@@ -180,6 +183,10 @@ def snapshot(roots, max_depth=8):
             out[loc] = ('obj', id(x))
             for k, y in vars(x).items():
                 if k in ('logger', '_FrozenClass__isfrozen', 'evals', 'solves', 'trace', 'mass'):
+                    continue
+                if k.startswith('_') and not _MANGLED.match(k):
+                    # private bookkeeping of an object (counters, caches): not part of any property's state. What such a cache DOES is judged by
+                    # the post-conditions (history instances), not by "nothing else changed"
                     continue
                 if k in ('_Step__prev', '_Step__next', '_Sweeper__level', 'controller', 'fine', 'coarse', 'fine_prob', 'coarse_prob', '_Step__transfer_dict'):
                     out[f'{loc}.{_demangle(k)}'] = ('obj', id(y))
